@@ -7,6 +7,8 @@ import (
 	segment "github.com/blugelabs/bluge_segment_api"
 )
 
+func init() { vpRegister("vpH_C05_manyfields", vpH_C05_manyfields) }
+
 func init() {
 	vpRegister("vpH_C05_iter", vpH_C05_iter)
 	vpRegister("vpH_C05_onehit", vpH_C05_onehit)
@@ -295,4 +297,57 @@ func vpH_C05_replace() {
 	opt.ReplaceActual(abm)
 	vpDriveIterator(it, live, exp, flags, 2)
 	vpReach("C05 replace end")
+}
+
+// C05 on a segment with more than 128 fields (field numbers of one and of two
+// varint bytes): a composite field whose locations name a low- and a
+// high-numbered field; postings are skipped (Advance, exclusion) before the
+// locations of a later posting in the same chunk are read.  Built and merged.
+func vpH_C05_manyfields() {
+	var docs []*vpDoc
+	for d := 0; d < 3; d++ {
+		doc := &vpDoc{}
+		for f := 0; f < 140; f++ {
+			doc.fields = append(doc.fields, &vpField{name: "f" + vpItoa(1000+f), length: 1, terms: []*vpTerm{{term: []byte("t"), freq: 1}}})
+		}
+		doc.fields = append(doc.fields, &vpField{name: "zzc", length: 2, terms: []*vpTerm{{term: []byte("x"), freq: 2,
+			locs: []*vpLoc{{field: "f1003", pos: 1 + d, start: 10 + d, end: 20 + d}, {field: "f1135", pos: 5 + d, start: 30 + d, end: 40 + d}}}}})
+		docs = append(docs, doc)
+	}
+	seg := vpBuild(docs, 1025)
+	if vpChoice("merged", 2) == 1 {
+		mb, _ := vpMergeBytes([]*Segment{seg}, []*roaring.Bitmap{nil}, 1025)
+		seg = vpLoad(mb)
+	}
+	exp := vpBuildExpect(docs, nil)
+	want := exp.post["zzc"]["x"]
+	d, err := seg.Dictionary("zzc")
+	vpMust(err, "Dictionary")
+	var except *roaring.Bitmap
+	target := uint64(1 + vpChoice("advance-to", 2))
+	if vpChoice("skip-by-exclusion", 2) == 1 {
+		except = roaring.New()
+		for i := uint64(0); i < target; i++ {
+			except.Add(uint32(i))
+		}
+		target = 0
+	}
+	pl, err := d.PostingsList([]byte("x"), except, nil)
+	vpMust(err, "PostingsList")
+	it, err := pl.Iterator(true, true, true, nil)
+	vpMust(err, "Iterator")
+	p, err := it.Advance(target)
+	vpMust(err, "Advance")
+	for p != nil {
+		w := want[p.Number()]
+		vpAssert(p.Frequency() == w.freq && len(p.Locations()) == len(w.locs), "many fields: frequency and number of locations of the returned document")
+		if len(p.Locations()) == len(w.locs) {
+			for i, l := range p.Locations() {
+				vpAssert(l.Field() == w.locs[i].field && l.Pos() == w.locs[i].pos && l.Start() == w.locs[i].start && l.End() == w.locs[i].end, "many fields: locations belong to the returned document")
+			}
+		}
+		p, err = it.Next()
+		vpMust(err, "Next")
+	}
+	vpReach("C05 manyfields end")
 }
